@@ -660,6 +660,10 @@ void reftable_reader_free(struct reftable_reader *r)
 	reftable_free(r);
 }
 
+static int reftable_reader_refs_for_unindexed(struct reftable_reader *r,
+					      struct reftable_iterator *it,
+					      uint8_t *oid);
+
 static int reftable_reader_refs_for_indexed(struct reftable_reader *r,
 					    struct reftable_iterator *it,
 					    uint8_t *oid)
@@ -692,6 +696,13 @@ static int reftable_reader_refs_for_indexed(struct reftable_reader *r,
 		/* didn't find it; return empty iterator */
 		iterator_set_empty(it);
 		err = 0;
+		goto done;
+	}
+
+	if (got.offset_len == 0) {
+		/* The writer omits the block positions if they do not fit in
+		 * a block. */
+		err = reftable_reader_refs_for_unindexed(r, it, oid);
 		goto done;
 	}
 
